@@ -12,7 +12,6 @@ def claim(pid, technique, text, note, design):
     CLAIMS[pid] = dict(technique=technique, text=text, note=note, design=design)
 
 NOT_APPLICABLE = {
-    'C17': "value-level round-trip laws over all strings and agreement with go/build's evaluator; the splitters are character loops with no structural clause that is both sound and non-vacuous for static analysis (DESIGN.md §3 C17)",
 }
 
 exec(open(os.path.join(VERIF, 'tools', 'claims.py')).read())
